@@ -68,6 +68,57 @@ CHECKS = {
                      "definition, orthonormal on unit-normalised Cartesians, with positive pole phase; every order/sign pattern for "
                      "l <= 2 and every Cartesian order for l <= 2 (depth-bounded above) is honoured exactly or rejected",
                 ref="DESIGN.md section 6 (C10)"),
+    "C11": dict(tech="TLC state machine of shell transpositions with its output law (Rewrites.tla) + replay of every ordering of 2-4 "
+                     "shells through every public function; symmetry / Hermiticity / eight-fold symmetry; shell blocks in every orientation",
+                text="TLC enumerates every ordering of 2, 3 and 4 shells as reachable states, checking that the function list stays a "
+                     "permutation; each is replayed (index permutation law); shell-pair and quartet blocks are computed in both / five "
+                     "orientations, including tight/diffuse shells, and compared on the C03/C04 scales",
+                ref="DESIGN.md section 6 (C11)"),
+    "C12": dict(tech="TLC check that the 48 signed axis permutations form a group with a homomorphic component law (Frames.tla) + replay of "
+                     "every element, with translations, through every public function",
+                text="for each of the 48 elements a seeded system is moved and every public function compared with the representation law "
+                     "(signed permutation on Cartesian shells, T P T+ on spherical ones, vector / tensor / pseudo-vector laws, permuted "
+                     "orders, d x p shift); random general rotations in addition",
+                ref="DESIGN.md section 6 (C12)"),
+    "C13": dict(tech="TLC state machine of contraction rewrites with a denotation invariant (Rewrites.tla) + replay of every reachable "
+                     "rewritten basis through every public function; linearity of un-normalised blocks",
+                text="split generalized shell / permute primitives / split primitive / scale column (both signs, 12 orders of magnitude) as "
+                     "actions; TLC checks in every reachable state that every column denotes the original function; every state (depth-"
+                     "bounded exhaustive + simulated deeper) is replayed with the index/sign law",
+                ref="DESIGN.md section 6 (C13)"),
+    "C14": dict(tech="TLC decision table of the nucleus mask and the density-matrix size rule (Esp.tla) + exact-value replay with thresholds "
+                     "bracketing exactly representable distances",
+                text="mask rule d < tau for every combination of distance/threshold order, charge sign and magnitude, zero cases; pinned "
+                     "variants must differ (negative controls); exact electronic term from the Rys definition; square and rectangular "
+                     "transformations; numpy error state restored",
+                ref="DESIGN.md section 6 (C14)"),
+    "C16": dict(level="exploration", tech="replay of the stated quadrature relation on TLC-enumerated configuration classes",
+                text="TLC enumerates shells x type pattern x geometry x contraction classes; for each a seeded basis: trapezoid quadrature of "
+                     "gbasis' own evaluations reproduces its overlap, moment, kinetic matrices, tr(PS) and tr(PT) to 1e-8",
+                ref="DESIGN.md section 6 (C16)", note="sampled; the quadrature error bound (h = 0.2, exponents <= 2.5) is analytic, not checked by TLC"),
+    "C17": dict(level="exploration", tech="replay of the stated inequalities on TLC-enumerated configuration classes",
+                text="TLC enumerates 1-5 shells x type pattern x geometry class (coincident .. nearly dependent) x contraction class; "
+                     "eigenvalue and Schwarz bounds checked on gbasis' outputs with the stated slack",
+                ref="DESIGN.md section 6 (C17)", note="sampled; TLC cannot evaluate eigenvalues"),
+    "C18": dict(tech="TLC exhaustive round trip Parse(Render(f)) = Columns(f) over all small files x layouts x formats (BasisFile.tla) + "
+                     "replay of every enumerated file and seeded large files; make_contractions / from_pyscf with reused arguments",
+                text="40320 abstract files/layouts checked in TLC (pinned line machine must fail: negative control); each rendered with "
+                     "E/D/plain numbers and parsed by the real parsers; molecules with repeated elements and coordinate types as "
+                     "string/list/tuple, same argument objects reused",
+                ref="DESIGN.md section 6 (C18)"),
+    "C19": dict(tech="TLC model checking of Session.tla (purity, history independence, error state) + simulation-generated behaviours executed "
+                     "on real shared objects + trace validation of the recordings against the specification (Trace_Session.tla)",
+                text="both conformance directions: TLC behaviours over 35 public functions (valid and invalid) with parameter updates, "
+                     "renormalisation and overwrites are executed; every step's full object/value/error-state snapshot is recorded and the "
+                     "traces are validated by TLC; a trace is rejected exactly where a call changes an object, leaves the error state "
+                     "switched or answers differently for equal argument values",
+                ref="DESIGN.md section 6 (C19)"),
+    "C20": dict(tech="TLC exhaustive check of the cutoff decision, monotonicity and the harmonic-mean lemma over Q (Screen.tla) + replay of "
+                     "the block pattern",
+                text="decision with the smallest exponents on both sides of every cutoff, monotone in the tolerance, conservative for every "
+                     "primitive pair (largest-exponent variant: negative control); replay: removed blocks exactly zero, kept blocks "
+                     "identical to the unscreened call, bound on removed s-type elements, transformed path, boolean tolerance rejected",
+                ref="DESIGN.md section 6 (C20)"),
     "C08": dict(tech="TLC model checking (derivative/moment tables) + exact-value replay of every ordered pair and component "
                      "+ Hermiticity of the assembled arrays",
                 text="momentum and angular-momentum arrays compared with exact values of -i<a|grad|b>, -i<a|r x grad|b> for "
